@@ -165,6 +165,13 @@ func (c *Client) Hello(localName string) error {
 	if err := validateLine(localName); err != nil {
 		return err
 	}
+	// the name is the only argument of the HELO/EHLO command, it cannot contain whitespace or
+	// control characters
+	for i := 0; i < len(localName); i++ {
+		if localName[i] <= ' ' || localName[i] == 0x7f {
+			return errors.New("smtp: the HELO/EHLO name must not contain whitespace or control characters")
+		}
+	}
 	if c.didHello {
 		return errors.New("smtp: Hello called after other methods")
 	}
